@@ -321,4 +321,96 @@ def mscStepFromGeo (log1p : α → α) (trueStep alpha range lambda gstep : α) 
         fmin (temp / alpha) range
     clamp tstep gstep trueStep
 
+/-! ### ValueGridXsBuilder / ValueGridLogBuilder / ValueGridInserter (ValueGridBuilder.cc) -/
+
+/-- `SoftEqualTraits<double>::rel_prec()`, `abs_thresh()` -/
+def relPrec : α := Num.ofSci Generated.CalcConsts.relPrecM true Generated.CalcConsts.relPrecE
+def absThresh : α :=
+  Num.ofSci Generated.CalcConsts.absThreshM true Generated.CalcConsts.absThreshE
+
+/-- `soft_equal(a, b)` = `SoftEqual<double>()(a, b)`:
+    `rel = rel_ * fmax(fabs(a), fabs(b)); return fabs(a - b) < fmax(abs_, rel);` -/
+def softEqual (a b : α) : Bool :=
+  let rel := (relPrec : α) * fmax (Num.abs a) (Num.abs b)
+  Num.lt (Num.abs (a - b)) (fmax (absThresh : α) rel)
+
+/-- members of `ValueGridXsBuilder` after its constructor
+    (`log_emin_ = log(emin)`, `log_eprime_ = log(eprime)`, `log_emax_ = log(emax)`) -/
+structure XsBuilder (α : Type) where
+  logEmin : α
+  logEprime : α
+  logEmax : α
+  xs : Array α
+deriving Repr, Inhabited
+
+def XsBuilder.mk' (emin eprime emax : α) (xs : Array α) : XsBuilder α :=
+  ⟨Num.log emin, Num.log eprime, Num.log emax, xs⟩
+
+/-- the prime-index search of `ValueGridXsBuilder::build`:
+    `prime_index = grid.find(log_eprime_);
+     if (soft_equal(grid[prime_index + 1], log_eprime_)) ++prime_index;` -/
+def XsBuilder.primeIndex (toIdx : α → Nat) (b : XsBuilder α) : Nat :=
+  let g := UGrid.fromBounds b.logEmin b.logEmax b.xs.size
+  let p := g.find toIdx b.logEprime
+  if softEqual (g.at (p + 1)) b.logEprime then p + 1 else p
+
+/-- `ValueGridXsBuilder::build(insert)` with `ValueGridInserter::operator()`: the grid is
+    `from_bounds(log_emin_, log_emax_, xs_.size())`, the values are appended to `reals`
+    unchanged (the caller supplies the part at/above `eprime` already multiplied by E) -/
+def XsBuilder.build (toIdx : α → Nat) (b : XsBuilder α) (reals : Array α) : XsGrid α :=
+  ⟨UGrid.fromBounds b.logEmin b.logEmax b.xs.size, b.primeIndex toIdx, reals.size, b.xs.size,
+   reals ++ b.xs⟩
+
+/-- `ValueGridLogBuilder(emin, emax, value).build(insert)`: no 1/E scaling -/
+def logBuild (emin emax : α) (value reals : Array α) : XsGrid α :=
+  ⟨UGrid.fromBounds (Num.log emin) (Num.log emax) value.size, noScaling, reals.size, value.size,
+   reals ++ value⟩
+
+/-! ### calc_physics_step_limit (PhysicsStepUtils.hh) for one process with macro-xs, energy-loss
+    and range tables (no integral-xs, no hardwired model) -/
+
+/-- which limit won: `discrete_action`, `range_action`, `fixed_step_action` -/
+inductive StepAction | discrete | range | fixed
+deriving DecidableEq, Repr, Inhabited
+
+/-- `StepLimit` -/
+structure StepLimit (α : Type) where
+  step : α
+  action : StepAction
+deriving Repr, Inhabited
+
+/-- the per-track values `calc_physics_step_limit` caches for later use in the same step:
+    `PhysicsTrackState::dedx_range` (read by `calc_mean_energy_loss`, MSC) and `macro_xs`
+    (read by `select_discrete_interaction`); they persist in the track slot between steps -/
+structure PhysTrack (α : Type) where
+  dedxRange : α
+  macroXs : α
+deriving Repr, Inhabited
+
+/-- `calc_physics_step_limit(material, particle, physics, pstep)`;
+    `rho`/`alpha` = `min_range`/`max_step_over_range`, `fixedLimit` = `fixed_step_limiter`,
+    `mfp` = `physics.interaction_mfp()` -/
+def physicsStepLimit (toIdx : α → Nat) (mxs rng : XsGrid α) (rho alpha fixedLimit : α)
+    (st : PhysTrack α) (energy mfp : α) : Option (StepLimit α × PhysTrack α) :=
+  match mxs.calc toIdx energy with
+  | none => none
+  | some processXs =>
+    let total := (0 : α) + processXs
+    let st1 : PhysTrack α := { st with macroXs := total }
+    if Num.eq energy (0 : α) then some (⟨(0 : α), .discrete⟩, st1)
+    else
+      let step0 := mfp / total
+      match rng.range toIdx energy with
+      | none => none
+      | some range =>
+        -- "Save range for the current step and reuse it elsewhere"
+        let st2 : PhysTrack α := { st1 with dedxRange := range }
+        let elossStep := rangeToStep rho alpha range
+        let lim1 : StepLimit α :=
+          if Num.le elossStep step0 then ⟨elossStep, .range⟩ else ⟨step0, .discrete⟩
+        let lim2 : StepLimit α :=
+          if Num.gt fixedLimit (0 : α) && Num.lt fixedLimit lim1.step then ⟨fixedLimit, .fixed⟩
+          else lim1
+        some (lim2, st2)
+
 end CelerVerif.Calc
